@@ -628,8 +628,38 @@ def monitors(scn, trace):
 # --------------------------------------------------------------------------
 
 
+def local_monitor(scn, trace):
+    """C19 on an execution-graph trace: a locally executed step is run once per attempt, at most
+    `attempts` times and not again after a success; its exit code decides (FINISHED / FAILED with every
+    dependent FAILED by the end of the same poll); it runs only after its dependencies finished."""
+    out = []
+    desc = descendants(scn)
+    for k, o in enumerate(trace):
+        runs = {}
+        for ev in o.raw_events:
+            if ev[0] == "local":
+                runs.setdefault(S.sidx(ev[1]), []).append(ev[3])
+        for i, seq in runs.items():
+            want_len_ok = len(seq) <= scn["attempts"] and all(x == "fail" for x in seq[:-1])
+            if not want_len_ok or (seq[-1] == "fail" and len(seq) != scn["attempts"]):
+                out.append(("run-count", "op %d: step %d was run with outcomes %s (attempts=%d)"
+                            % (k, i, seq, scn["attempts"])))
+            if seq[-1] == "ok" and o.state[i] != "FINISHED":
+                out.append(("exit-code-decides", "op %d: step %d exited 0 but is %s" % (k, i, o.state[i])))
+            if seq[-1] == "fail":
+                wrong = [(j, o.state[j]) for j in sorted({i} | desc[i]) if o.state[j] != "FAILED"]
+                if wrong:
+                    out.append(("exit-code-decides", "op %d: step %d failed every attempt; not FAILED afterwards: %s"
+                                % (k, i, wrong[:4])))
+    return out[:4]
+
+
 def make_case(scn, ops, trace, prop):
-    mon = monitors(scn, trace).get(prop, [])
+    allmon = monitors(scn, trace)
+    if prop == "C19":
+        mon = (local_monitor(scn, trace) + allmon.get("C01", []) + allmon.get("C05", []))[:4]
+    else:
+        mon = allmon.get(prop, [])
     nontrivial = any(o.op.get("reports") and any(
         st in ("FAILED", "TIMEDOUT", "HWFAILURE", "UNKNOWN", "CANCELLED", None)
         for _, st in o.op["reports"]) for o in trace if o.op["op"] == "poll") \
